@@ -49,7 +49,11 @@ Sqrt2Q  == 92682                                        \* round(sqrt(2) * 65536
 Penalty == IF IsMC THEN Cfg.penalty ELSE N * Sqrt2Q     \* documented invalid-move penalty num_cities * sqrt(2)
 PenTol  == IF IsMC THEN 0 ELSE (N \div 4) + 2           \* 0.1 unit per city (Sqrt2Q rounding) + float32 + export rounding
 LegTol(k) == IF Exact \/ k = 0 THEN 0 ELSE k + 2        \* a sum of k legs; the empty sum is exactly 0
-Dist(s, i, j) == s.D[i + 1][j + 1]                      \* leg from city i to city j (0-based ids)
+\* leg from city i to city j (0-based ids).  A leg whose endpoint is not a city (-1 in a route that should be
+\* filled, as only a defective implementation produces) has the length Poison: far from every real length, so
+\* the clause that sums it fails instead of raising an evaluation error (21 * Poison < 2^31).
+Poison == 50000000
+Dist(s, i, j) == IF i \in Actions /\ j \in Actions THEN s.D[i + 1][j + 1] ELSE Poison
 
 (* ---------- the rules ---------- *)
 Visited(s)    == { j \in Cities : s.visited_mask[j] }
